@@ -1,4 +1,4 @@
--- properties: C01 C06 C07
+-- properties: C01 C04 C06 C07
 /-
   C01 / C06 / C07 for DWVW (src/dwvw.c), on the bit-level model of SfModel/Dwvw.lean, DwvwFile.lean.
   Property theorems only; helpers in SfProofs/Dwvw*.lean.
@@ -7,14 +7,18 @@
   * the delta-width state stays inside [0, bit_width) (`dwvw_width_bounded`).
   * C01: decode ∘ encode is the identity on bit_width-bit samples, wrap-around deltas included (`dwvw_roundtrip…`),
     and the caller types short / int come back exactly under the side condition the statement gives.
-  * C06: the decoded stream does NOT depend only on the frame index — a call that starts in the tail of the file
-    delivers nothing (known finding KF-DWVW-TAIL-CALL): full statement, proved witness, and the partial theorem whose
-    excluded class is exactly `tailStart`.
+  * C06: cutting a read into calls does not change what is delivered (`dwvw_read_split`, full strength since the repair
+    of KF-DWVW-TAIL-CALL; the rule before the repair — SfModel/DwvwOld.lean — refutes it: `dwvw_read_split_old_rule`).
+  * C04: the frame count `dwvw_init` computes at open is at least the frames written (`dwvw_scan_ge`), so an AIFF file
+    (count capped by the COMM chunk) re-opens with exactly N frames (`dwvw_aiff_frames_exact`); a RAW file has no
+    header and its count is an estimate F ≥ N whose first N frames are the ones written (`dwvw_raw_frames_partial`,
+    the part of C04 that holds for the class of KF-RAW-DWVW-FRAMES; `dwvw_raw_frames_full_false`: F = N does not).
 -/
 import SfProofs.DwvwCalls
 import SfProofs.DwvwDec
 import SfProofs.DwvwState
 import SfModel.DwvwFile
+import SfModel.DwvwOld
 namespace Sf.C01Dwvw
 open Sf Sf.Dwvw Sf.Dwvw.Proofs
 
@@ -84,28 +88,29 @@ example : toCaller {} .s16 (asr (toCodec {} .s16 (-32768)) (Cfg.shift ⟨12⟩) 
 
 /-- every sequence of 32-bit caller values written to a file (any bit width 12 / 16 / 24, whatever follows the data —
     the AIFF pad byte — in `extra`) and read back in one call of the same length comes back with exactly the low
-    `32 - bit_width` bits cleared; all wrap-around cases of the delta arithmetic are inside.  The one hypothesis on
-    the file, `dwm_maxsize ≤ 8 · length`, excludes files so short that the very first look-ahead passes the end (24 bit:
-    a single byte — the KF-DWVW-TAIL-CALL class at the first call). -/
+    `32 - bit_width` bits cleared; all wrap-around cases of the delta arithmetic are inside.  No hypothesis on the file
+    (before the repair of KF-DWVW-TAIL-CALL: `dwm_maxsize ≤ 8 · length`, see `dwvw_short_file_old_rule`). -/
 theorem dwvw_roundtrip (c : Cfg) (hw : c.ok) (xs : List Int) (hx : ∀ x ∈ xs, -2 ^ 31 ≤ x ∧ x < 2 ^ 31)
-    (extra : List Byte) (hfile : c.dwmMax ≤ 8 * (encodeAll c xs ++ extra).length) :
+    (extra : List Byte) :
     decodeAll c (encodeAll c xs ++ extra) xs.length = xs.map (fun p => asr p c.shift * 2 ^ c.shift) :=
-  dwvw_roundtrip_core c hw xs hx extra hfile
+  dwvw_roundtrip_core c hw xs hx extra
+
+theorem caller_range (c : Cfg) (hw : c.ok) (qs : List Int) (hq : ∀ q ∈ qs, -c.maxDelta ≤ q ∧ q < c.maxDelta) :
+    ∀ x ∈ qs.map (· * 2 ^ c.shift), -2 ^ 31 ≤ x ∧ x < 2 ^ 31 := by
+  intro x hx
+  obtain ⟨q, hq1, rfl⟩ := List.mem_map.mp hx
+  have := hq q hq1
+  obtain ⟨w⟩ := c
+  rcases hw with h | h | h <;> simp only at h <;> subst h <;>
+  · simp only [Cfg.maxDelta, Cfg.shift] at this ⊢
+    norm_num at this ⊢
+    omega
 
 /-- bit_width-bit samples (`q · 2^(32 - w)`, the low bits zero as C01 asks) come back bit-identical -/
 theorem dwvw_roundtrip_exact (c : Cfg) (hw : c.ok) (qs : List Int) (hq : ∀ q ∈ qs, -c.maxDelta ≤ q ∧ q < c.maxDelta)
-    (extra : List Byte) (hfile : c.dwmMax ≤ 8 * (encodeAll c (qs.map (· * 2 ^ c.shift)) ++ extra).length) :
+    (extra : List Byte) :
     decodeAll c (encodeAll c (qs.map (· * 2 ^ c.shift)) ++ extra) qs.length = qs.map (· * 2 ^ c.shift) := by
-  have hx : ∀ x ∈ qs.map (· * 2 ^ c.shift), -2 ^ 31 ≤ x ∧ x < 2 ^ 31 := by
-    intro x hx
-    obtain ⟨q, hq1, rfl⟩ := List.mem_map.mp hx
-    have := hq q hq1
-    obtain ⟨w⟩ := c
-    rcases hw with h | h | h <;> simp only at h <;> subst h <;>
-    · simp only [Cfg.maxDelta, Cfg.shift] at this ⊢
-      norm_num at this ⊢
-      omega
-  have := dwvw_roundtrip_core c hw (qs.map (· * 2 ^ c.shift)) hx extra hfile
+  have := dwvw_roundtrip_core c hw (qs.map (· * 2 ^ c.shift)) (caller_range c hw qs hq) extra
   rw [List.length_map] at this
   rw [this, List.map_map]
   apply List.map_congr_left
@@ -120,64 +125,158 @@ theorem dwvw_file_nonempty (c : Cfg) (hw : c.ok) (xs : List Int) : 1 ≤ (encode
   simp only [List.length_append, bytesBits_length] at this
   omega
 
-/-- 12 and 16 bit: every file is long enough for the first look-ahead, so the round trip is unconditional -/
-theorem dwvw_roundtrip_12_16 (c : Cfg) (hw : c.w = 12 ∨ c.w = 16) (xs : List Int)
-    (hx : ∀ x ∈ xs, -2 ^ 31 ≤ x ∧ x < 2 ^ 31) :
-    decodeAll c (encodeAll c xs) xs.length = xs.map (fun p => asr p c.shift * 2 ^ c.shift) := by
-  have ok : c.ok := by rcases hw with h | h <;> simp [Cfg.ok, h]
-  have hlen := dwvw_file_nonempty c ok xs
-  have := dwvw_roundtrip_core c ok xs hx [] (by
-    have : c.dwmMax ≤ 8 := by rcases hw with h | h <;> simp [Cfg.dwmMax, h]
-    simp only [List.append_nil]; omega)
-  simpa using this
-
-/-- 24 bit really needs the hypothesis: three zero samples make the one-byte file FF, and nothing is read back -/
-theorem dwvw_short_file_witness : encodeAll ⟨24⟩ [0, 0, 0] = [255] ∧ decodeAll ⟨24⟩ [255] 3 = [] := by decide +kernel
+/-- the rule before the repair needed a hypothesis on the file: three zero samples make the one-byte 24-bit file FF, the
+    very first look-ahead (12 bits) passes its end and NOTHING was read back; the current rule reads the three samples -/
+theorem dwvw_short_file_old_rule : encodeAll ⟨24⟩ [0, 0, 0] = [255] ∧ (Old.decodeData ⟨24⟩ 3 (DSt.init [255])).2 = [] ∧
+    decodeAll ⟨24⟩ [255] 3 = [0, 0, 0] := by decide +kernel
 
 /-- full scale down, full scale up, and the two ±max_delta special cases, 16 bit -/
 example : encodeAll ⟨16⟩ [0x7FFF0000, -0x80000000, 0, -0x80000000, 0x7FFF0000] = [127, 255, 132, 63, 255, 223, 255, 249, 79, 255, 249, 127] ∧
     decodeAll ⟨16⟩ [127, 255, 132, 63, 255, 223, 255, 249, 79, 255, 249, 127] 5 = [0x7FFF0000, -0x80000000, 0, -0x80000000, 0x7FFF0000] := by
   decide +kernel
 
-/-! ## C06: read partition — known finding KF-DWVW-TAIL-CALL -/
+/-! ## C06: read partition -/
 
-/-- the full statement: cutting a read of `a + b` samples into a read of `a` (delivered completely) and a read of `b`
-    delivers the same samples -/
-def dwvw_read_split_full : Prop :=
-  ∀ (c : Cfg) (d : DSt) (a b : Nat), c.ok → (decodeData c a d).2.length = a →
-    (decodeData c (a + b) d).2 = (decodeData c a d).2 ++ (decodeData c b (decodeData c a d).1).2
+/-- the statement for a decoder `dec` (one call: state, delivered samples): cutting a read of `a + b` samples into a read
+    of `a` (delivered completely) and a read of `b` delivers the same samples -/
+def readSplitFull (dec : Cfg → Nat → DSt → DSt × List Int) : Prop :=
+  ∀ (c : Cfg) (d : DSt) (a b : Nat), c.ok → (dec c a d).2.length = a →
+    (dec c (a + b) d).2 = (dec c a d).2 ++ (dec c b (dec c a d).1).2
+
+/-- **dwvw_read_split (C06, full strength)**: in EVERY decoder state, a call of `a + b` cells whose first `a` are
+    delivered is the call of `a` cells followed by the call of `b` cells -/
+theorem dwvw_read_split (c : Cfg) (d : DSt) (a b : Nat) (h : (decodeData c a d).2.length = a) :
+    (decodeData c (a + b) d).2 = (decodeData c a d).2 ++ (decodeData c b (decodeData c a d).1).2 := by
+  unfold decodeData at h ⊢
+  rw [decLoop_add c a b d, if_pos h]
+
+/-- not vacuous: in the two-byte file the first five samples are delivered, and 5 + 1 is the read of six -/
+example : (decodeData ⟨24⟩ 5 (DSt.init [255, 255])).2.length = 5 ∧
+    (decodeData ⟨24⟩ (5 + 1) (DSt.init [255, 255])).2 = [0, 0, 0, 0, 0, 0] := by decide +kernel
+
+theorem dwvw_read_split_full_holds : readSplitFull decodeData := fun c d a b _ h => dwvw_read_split c d a b h
 
 /-- six zero samples in a 24-bit file are the two bytes FF FF -/
 theorem dwvw_tail_witness_bytes : encodeAll ⟨24⟩ [0, 0, 0, 0, 0, 0] = [255, 255] := by decide +kernel
 
-/-- witness: one read of six delivers six; five and then one delivers five and then nothing -/
-theorem dwvw_tail_call_witness :
-    decodeAll ⟨24⟩ [255, 255] 6 = [0, 0, 0, 0, 0, 0] ∧ decodeCalls ⟨24⟩ (DSt.init [255, 255]) [5, 1] = [[0, 0, 0, 0, 0], []] := by
-  decide
+/-- the rule before the repair of KF-DWVW-TAIL-CALL: one read of six delivered six; five and then one delivered five and
+    then NOTHING (the second call started in `tailStart`); the current rule delivers the sixth -/
+theorem dwvw_read_split_old_rule :
+    (Old.decodeData ⟨24⟩ 6 (DSt.init [255, 255])).2 = [0, 0, 0, 0, 0, 0] ∧
+    (Old.decodeData ⟨24⟩ 5 (DSt.init [255, 255])).2 = [0, 0, 0, 0, 0] ∧
+    (Old.decodeData ⟨24⟩ 1 (Old.decodeData ⟨24⟩ 5 (DSt.init [255, 255])).1).2 = [] ∧
+    tailStart ⟨24⟩ (Old.decodeData ⟨24⟩ 5 (DSt.init [255, 255])).1 ∧
+    decodeCalls ⟨24⟩ (DSt.init [255, 255]) [5, 1] = [[0, 0, 0, 0, 0], [0]] := by
+  decide +kernel
 
-theorem dwvw_read_split_fails : ¬ dwvw_read_split_full := by
+theorem dwvw_read_split_full_old_rule_fails : ¬ readSplitFull Old.decodeData := by
   intro h
-  have := h ⟨24⟩ (DSt.init [255, 255]) 5 1 (by unfold Cfg.ok; decide) (by decide)
+  have := h ⟨24⟩ (DSt.init [255, 255]) 5 1 (by unfold Cfg.ok; decide) (by decide +kernel)
   revert this
-  decide
+  decide +kernel
 
-/-- what holds: for calls none of which is cut short and none of which starts after the look-ahead has passed the end of
-    the file (`tailStart`, exactly the class of KF-DWVW-TAIL-CALL) the pieces are the single read -/
-theorem dwvw_read_split_partial (c : Cfg) (d : DSt) (ns : List Nat) (h : safeCalls c d ns) :
+/-- any number of calls, none but the last cut short: the pieces are the single read -/
+theorem dwvw_read_calls (c : Cfg) (d : DSt) (ns : List Nat) (h : fullCalls c d ns) :
     (decodeCalls c d ns).flatten = (decodeData c ns.sum d).2 := decodeCalls_flatten c d ns h
 
-/-- two calls -/
-theorem dwvw_read_split_two (c : Cfg) (d : DSt) (a b : Nat) (h1 : (decodeData c a d).2.length = a)
-    (h2 : ¬ tailStart c (decodeData c a d).1) (h3 : (decodeData c b (decodeData c a d).1).2.length = b) :
-    (decodeData c (a + b) d).2 = (decodeData c a d).2 ++ (decodeData c b (decodeData c a d).1).2 := by
-  have := decodeCalls_flatten c d [a, b] ⟨h1, Or.inr h2, h3, Or.inl rfl, trivial⟩
-  simpa [decodeCalls] using this.symm
+example : fullCalls ⟨24⟩ (DSt.init [255, 255]) [3, 2, 1] ∧ (decodeCalls ⟨24⟩ (DSt.init [255, 255]) [3, 2, 1]).flatten = [0, 0, 0, 0, 0, 0] :=
+  ⟨⟨Or.inr (by decide +kernel), Or.inr (by decide +kernel), Or.inl rfl, trivial⟩, by decide +kernel⟩
 
-/-- not vacuous: the six-sample file read as 3 + 2 is safe and gives the first five samples -/
-example : safeCalls ⟨24⟩ (DSt.init [255, 255]) [3, 2] ∧ (decodeCalls ⟨24⟩ (DSt.init [255, 255]) [3, 2]).flatten = [0, 0, 0, 0, 0] :=
-  ⟨⟨by decide, Or.inr (by decide), by decide, Or.inl rfl, trivial⟩, by decide⟩
+/-- a prefix of a request that is delivered completely is delivered completely -/
+theorem dwvw_prefix_delivered (c : Cfg) (d : DSt) (a b : Nat) (h : (decodeData c (a + b) d).2.length = a + b) :
+    (decodeData c a d).2.length = a := decLoop_prefix_full c a b d h
 
-/-- the class is met in the witness: after five samples the next call starts in the tail -/
-example : tailStart ⟨24⟩ (decodeData ⟨24⟩ 5 (DSt.init [255, 255])).1 := by decide
+/-! ## C04: the frame count at open -/
+
+theorem frameScan_mono (c : Cfg) (fuel : Nat) (d : DSt) (t : Nat) : t ≤ frameScan c fuel d t := by
+  induction fuel generalizing d t with
+  | zero => simp [frameScan]
+  | succ f ih =>
+    simp only [frameScan]
+    split
+    · exact Nat.le_refl _
+    · exact Nat.le_trans (Nat.le_add_right _ _) (ih _ _)
+
+/-- `psf_decode_frame_count` counts at least every sample one call would deliver -/
+theorem frameScan_ge (c : Cfg) (fuel : Nat) (d : DSt) (t N : Nat) (h : (decodeData c N d).2.length = N)
+    (hf : N ≤ chunkLen * fuel) : t + N ≤ frameScan c fuel d t := by
+  induction fuel generalizing d t N with
+  | zero => simp at hf; subst hf; simp [frameScan]
+  | succ f ih =>
+    simp only [frameScan]
+    by_cases hN : N ≤ chunkLen
+    · have hlen : N ≤ (decodeData c chunkLen d).2.length := by
+        have e : chunkLen = N + (chunkLen - N) := by omega
+        rw [e, dwvw_read_split c d N (chunkLen - N) h, List.length_append, h]; omega
+      split
+      · omega
+      · exact Nat.le_trans (by omega) (frameScan_mono c f _ _)
+    · have e : N = chunkLen + (N - chunkLen) := by omega
+      have h1 : (decodeData c chunkLen d).2.length = chunkLen := by
+        rw [e] at h; exact dwvw_prefix_delivered c d chunkLen (N - chunkLen) h
+      have h2 : (decodeData c (N - chunkLen) (decodeData c chunkLen d).1).2.length = N - chunkLen := by
+        have := h
+        rw [e, dwvw_read_split c d chunkLen (N - chunkLen) h1, List.length_append, h1] at this
+        omega
+      have hc : chunkLen = 2048 := rfl
+      rw [if_neg (by rw [h1, hc]; decide)]
+      have := ih (decodeData c chunkLen d).1 (t + (decodeData c chunkLen d).2.length) (N - chunkLen) h2
+        (by rw [Nat.mul_succ] at hf; omega)
+      rw [h1] at this ⊢
+      omega
+
+/-- a written file holds at least one bit per sample -/
+theorem dwvw_samples_le_bits (c : Cfg) (hw : c.ok) (xs : List Int) : xs.length ≤ 8 * (encodeAll c xs).length + 7 := by
+  obtain ⟨p, hp, hb⟩ := encodeAll_bits c xs
+  have h1 := codes_length_ge c hw 0 0 xs
+  have := congrArg List.length hb
+  simp only [List.length_append, bytesBits_length] at this
+  omega
+
+/-- **dwvw_scan_ge**: the frame count `dwvw_init` computes by decoding the file 2048 samples at a time is at least the
+    number of frames written — whatever their number and whatever follows the data (before the repair of
+    KF-DWVW-TAIL-CALL it could be that number rounded DOWN to a multiple of 2048: `dwvw_scan_old_rule`) -/
+theorem dwvw_scan_ge (c : Cfg) (hw : c.ok) (xs : List Int) (hx : ∀ x ∈ xs, -2 ^ 31 ≤ x ∧ x < 2 ^ 31) (extra : List Byte) :
+    xs.length ≤ frameScan c ((encodeAll c xs ++ extra).length * 8 + 2) (DSt.init (encodeAll c xs ++ extra)) 0 := by
+  have h := dwvw_roundtrip_core c hw xs hx extra
+  have hl : (decodeData c xs.length (DSt.init (encodeAll c xs ++ extra))).2.length = xs.length := by
+    unfold decodeAll at h; rw [h, List.length_map]
+  have hb := dwvw_samples_le_bits c hw xs
+  have := frameScan_ge c ((encodeAll c xs ++ extra).length * 8 + 2) (DSt.init (encodeAll c xs ++ extra)) 0 xs.length hl
+    (by simp only [chunkLen, List.length_append]; omega)
+  omega
+
+/-- **dwvw_aiff_frames_exact (C04, AIFF)**: the COMM chunk holds the frames written and caps the decoded count, so the
+    re-opened file reports exactly N frames -/
+theorem dwvw_aiff_frames_exact (c : Cfg) (hw : c.ok) (xs : List Int) (hx : ∀ x ∈ xs, -2 ^ 31 ≤ x ∧ x < 2 ^ 31) (extra : List Byte) :
+    framesAtOpen c (encodeAll c xs ++ extra) (some xs.length) = xs.length := by
+  have := dwvw_scan_ge c hw xs hx extra
+  unfold framesAtOpen
+  simp only
+  split <;> omega
+
+/-- **dwvw_raw_frames_partial (C04, RAW — what holds in the class of KF-RAW-DWVW-FRAMES)**: a headerless file re-opens
+    with an ESTIMATE `F ≥ N`, and reading its first N frames in one call delivers the frames written -/
+theorem dwvw_raw_frames_partial (c : Cfg) (hw : c.ok) (xs : List Int) (hx : ∀ x ∈ xs, -2 ^ 31 ≤ x ∧ x < 2 ^ 31) :
+    xs.length ≤ framesAtOpen c (encodeAll c xs) none ∧
+    decodeAll c (encodeAll c xs) xs.length = xs.map (fun p => asr p c.shift * 2 ^ c.shift) := by
+  have h1 := dwvw_scan_ge c hw xs hx []
+  have h2 := dwvw_roundtrip_core c hw xs hx []
+  simp only [List.append_nil] at h1 h2
+  exact ⟨by unfold framesAtOpen; exact h1, h2⟩
+
+/-- C04 at full strength for RAW/DWVW (`F = N`) … -/
+def dwvw_raw_frames_full : Prop :=
+  ∀ (c : Cfg), c.ok → ∀ xs : List Int, (∀ x ∈ xs, -2 ^ 31 ≤ x ∧ x < 2 ^ 31) → framesAtOpen c (encodeAll c xs) none = xs.length
+
+/-- … is false and not repairable in the codec: one 16-bit sample (the short 256) re-opens as six (the flush samples `dwvw_close` appends
+    are indistinguishable from audio without a header; findings/kf_raw_dwvw_frames.txt) -/
+theorem dwvw_raw_frames_full_false : ¬ dwvw_raw_frames_full := by
+  intro h
+  have := h ⟨16⟩ (by unfold Cfg.ok; decide) [16777216] (by decide)
+  revert this
+  decide +kernel
+
+example : framesAtOpen ⟨16⟩ (encodeAll ⟨16⟩ [16777216]) none = 6 ∧ framesAtOpen ⟨16⟩ (encodeAll ⟨16⟩ [16777216] ++ [0]) (some 1) = 1 := by decide +kernel
 
 end Sf.C01Dwvw
